@@ -19,6 +19,7 @@ mod c11;
 mod c12;
 mod c13;
 mod c17;
+mod c18;
 mod genprog;
 mod irdecode;
 mod prog;
@@ -141,6 +142,10 @@ fn main() {
         "C17" => {
             c17::run(&rep);
             (c17::RULE, false, vec![A_CLI, "the machine state at a print command is the hook record emitted directly before it; memory contents come from the dump of the halting record, the per-record memory digest proves they did not change in between"])
+        }
+        "C18" => {
+            c18::run(&rep);
+            (c18::RULE, false, vec![A_CLI, "state before/after each service = hook records with full memory dumps (VERIF_DUMP=1)", "stdin is consumed line by line exactly as scripted (std::io::stdin().read_line semantics); inputs are valid UTF-8"])
         }
         "C06" => {
             c06::run(&rep);
